@@ -68,7 +68,8 @@ CHECKS = {
         technique="panic / allocation / step monitors + sanitizer lanes over exhaustive short inputs and structure-aware mutation",
         level="fault_enumeration",
         quick=NATIVE,
-        thorough=NATIVE + [("rel", 1.0, {"exhaustive3": "1"})],
+        thorough=NATIVE + [("rel", 1.0, {"exhaustive3": "1"}), ("asan", 0.1), ("msan", 0.1)],
+        custom="c05_depth_probe",
         rule="faults = hostile inputs: (a) all byte strings of length 0..2 per type, (b) valid encodings tampered at a field the reference decoder's annotated parse identifies (chunk size, count, length, tag, position byte, version, constructor index, string id), chunk surgery, splices, bit flips, overwrites with varint edge encodings, truncation, (c) random bytes, (d) primitive read sequences with counts {0, 1, remaining, remaining+1, usize::MAX, usize::MAX - pos + k}; every case counts as non-trivial (any outcome other than Ok/Err within budget is a violation); distinct by (type, input)",
         floors={"any": {"types_with_exhaustive_short_inputs": 1000, "outcome:Err": 100000, "outcome:Ok": 10000, "hostile_op_sequences": 10000}},
         assumptions=["each non-zero-width element consumes at least one input byte, so len + 65536 sequence items bounds every legitimate decode"],
@@ -195,6 +196,35 @@ CHECKS = {
         rule="chars: exhaustive (every scalar value is a distinct case); others: distinct by (type, value); non-trivial = all",
         floors={"any": {"unicode_scalars_checked": 1112064, "documented_error:LengthTooLarge": 12, "documented_error:UnknownFieldReferenceInEvolutionStep": 5, "encoded": 20000}},
         coverage_extra={"exhaustive_chars": True},
+    ),
+    "C18": dict(
+        claim="Held on the schedules observed: in every worker process 16 threads meet at a barrier and make the first encode and decode of a type simultaneously, for every subject type in turn (each derived type owns fresh lazy metadata statics; the evidence reports how many storms really had overlapping first calls), then 16 threads hammer shared values of mixed types, then random call histories (failing calls in between, encode-twice) run in one thread; every result is compared with the state-free reference model; the metadata-construction counter (hook) must stand still after the storms and equal the count of a single-threaded process making the same calls. ThreadSanitizer lane (thorough) and a Miri schedule probe (16 / 64 seeds) look for races and double initialisation.",
+        note="Trusted: the reference model as the 'fresh process' result; the hook counter. Schedules are whatever the OS / TSan / Miri produced: exploration, not enumeration.",
+        technique="first-use contention storms with reference oracle + init-counter hook; ThreadSanitizer; Miri many-seeds",
+        level="exploration",
+        quick=[("dbg", 1.0), ("rel", 1.0), ("dbg", 1.0, {"mode": "baseline"}), ("rel", 1.0, {"mode": "baseline"})],
+        thorough=[("dbg", 1.0), ("rel", 1.0), ("dbg", 1.0, {"mode": "baseline"}), ("rel", 1.0, {"mode": "baseline"}), ("tsan", 0.2), ("tsan", 0.2, {"mode": "baseline"})],
+        custom="c18_miri_probe",
+        rule="a case = one call (encode + decode of a generated value) compared with the reference; distinct_nontrivial counts first-use storms (one per type and process: the contended initialisation of that type's lazy statics) plus Miri schedule seeds; floor: at least 200 storms with two or more first calls in flight together",
+        floors={"any": {"storms_with_overlapping_first_calls": 200, "call_histories": 1000, "steady_state_calls": 100000, "miri_schedule_seeds_ok": 8}},
+        post=lambda counters: [
+            (f"C18|metadata_built_differs|{k.split(':', 2)[2]}",
+             dict(check="C18", mode="init_counter", process=k, under_contention=v, single_threaded=counters.get(k.replace(":storm:", ":baseline:"))))
+            for k, v in sorted(counters.items())
+            if k.startswith("metadata_built:storm:") and counters.get(k.replace(":storm:", ":baseline:")) not in (None, v)
+        ],
+    ),
+    "C19": dict(
+        claim="Part 1: every witness of the lifetime-escape catalogue (#![forbid(unsafe_code)], public API only) is compiled; the ones the compiler accepts are run under Miri, and an undefined-behaviour report refutes the property (known finding D13 for the store_ref family); witnesses that must be rejected are checked to stay rejected; negative controls must run clean. Part 2: the decode paths implemented with unsafe code or repaired from it (byte vectors, Bytes, big integers, fixed-size arrays) are fed valid, wrong-count, truncated and tampered data under AddressSanitizer (quick), MemorySanitizer, Miri and valgrind memcheck (thorough); every decoded value is fully traversed and compared with the strict reference decoder.",
+        note="'All safe client programs' is sampled by a hand-written catalogue (harness/witnesses); sanitizers see only executed paths, each lane is preceded by a canary that must fire.",
+        technique="compile-and-interpret witness catalogue (rustc + Miri) + sanitizer lanes on unsafe decode paths",
+        level="other",
+        explanation="witness catalogue: compiler verdict per witness, Miri verdict for every witness that compiles; sanitizer lanes: hostile and valid inputs through the unsafe decode paths with full traversal of results; evidence lists the verdict table and per-lane executions",
+        quick=[("dbg", 1.0), ("asan", 1.0)],
+        thorough=[("dbg", 1.0), ("asan", 1.0), ("msan", 0.3), ("miri", 0.02, {"shards": 16})],
+        custom="c19_witnesses",
+        rule="part 1: one case per witness; part 2: (type, input) pairs through the unsafe decode paths, distinct by (type, input)",
+        floors={"any": {"witnesses_rejected_by_the_compiler": 6, "negative_controls_clean": 2, "types_with_unsafe_decode_paths": 50}},
     ),
 }
 
